@@ -100,8 +100,9 @@ def loader(run, p):
     n = 0
     for name in ('loadTestsFromTestCase', 'loadTestsFromModule', 'loadTestsFromName', 'loadTestsFromNames'):
         f = L.methods.get(name)
-        ok = f is not None and any(isinstance(r, ast.Return) and isinstance(r.value, ast.Call) and norm(r.value.func) == 'self._tagged_tests_only'
-                                   for r in ast.walk(f.node)) and ('unittest.TestLoader.' + name) in ast.unparse(f.node)
+        rets = [r for r in ast.walk(f.node) if isinstance(r, ast.Return)] if f is not None else []
+        ok = f is not None and bool(rets) and all(isinstance(r.value, ast.Call) and norm(r.value.func) == 'self._tagged_tests_only' for r in rets) \
+            and ('unittest.TestLoader.' + name) in ast.unparse(f.node)
         n += 1
         run.ob('C19-LOADER', 'entry:%s' % name, ok, '%s delegates to unittest and filters the result through _tagged_tests_only' % name,
                fn=f or L.methods['__init__'], nontrivial=False)
